@@ -307,6 +307,48 @@ fn main() {
             out.flush().unwrap();
             println!("{{\"programs\": {}, \"runs\": {}, \"exhausted\": {}, \"incomplete\": {}}}", nprog, runs, exhausted, bad);
         }
+        "conc-replay" => {
+            // schedules emitted by TLC from the MemcConc model, replayed step by step on the real crate
+            conc::install_scheduler_hook();
+            let f = BufReader::new(File::open(get("scheds", "scheds.json")).unwrap());
+            let mut out = BufWriter::new(File::create(get("out", "replay.ndjson")).unwrap());
+            let mut n = 0;
+            for line in f.lines() {
+                let line = line.unwrap();
+                if line.trim().is_empty() {
+                    continue;
+                }
+                let v: serde_json::Value = serde_json::from_str(&line).expect("bad sched line");
+                n += 1;
+                let init = v["init"].as_str().unwrap_or("absent").to_string();
+                let mut clients = Vec::new();
+                let mut kind = "C03".to_string();
+                for c in v["prog"].as_array().unwrap() {
+                    let mut cmd = prog::cmd_from_json(c);
+                    cmd.key = b"ck".to_vec();
+                    cmd.flags = 9;
+                    cmd.delta = 1;
+                    cmd.initial = 10;
+                    if !matches!(cmd.op.as_str(), "get" | "set" | "delete") {
+                        kind = "C04".to_string();
+                    }
+                    clients.push(vec![cmd]);
+                }
+                let p = conc::Program { name: format!("tlc-{}", n), kind, init: init.clone(), policy: "none".into(), mem_limit: 0,
+                    keys: vec![b"ck".to_vec()], setup: concgen::setup(&init), clients };
+                let order: Vec<usize> = v["sched"].as_array().unwrap().iter().map(|x| x[0].as_u64().unwrap_or(1) as usize).collect();
+                let sites: Vec<String> = v["sched"].as_array().unwrap().iter().map(|x| x[1].as_str().unwrap_or("").to_string()).collect();
+                let r = conc::run_sched(&p, &[], Some(&order), &mut None, 400);
+                writeln!(out, "{}", serde_json::json!({"e": "crun", "prog": n, "run": 1, "name": p.name, "kind": p.kind, "init": p.init,
+                    "policy": "none", "L": 0, "slack": 0, "keys": ["636b"], "sched": [],
+                    "expect": {"order": order, "sites": sites, "resp": v["resp"], "final": v["final"]}})).unwrap();
+                for e in &r.events {
+                    writeln!(out, "{}", e).unwrap();
+                }
+            }
+            out.flush().unwrap();
+            println!("{{\"schedules\": {}}}", n);
+        }
         "tcp-wire" => {
             // frame streams over a socket, every stream under many segmentations
             let seed: u64 = get("seed", "1").parse().unwrap();
